@@ -5,7 +5,8 @@ cd "$(dirname "$0")"
 for d in seeded/${1:-C*}/; do
   id=$(basename $d)
   [ -f $d/meta.json ] || continue
-  own=$(/venv/bin/python -c "import json,sys; m=json.load(open('$d/meta.json')); c=m['caught_by']; p=m['property']; print(p if p in c else c[0])")
+  own=$(/venv/bin/python -c "import json,sys; m=json.load(open('$d/meta.json')); c=m['caught_by']; p=m['property']; print(p if p in c else (c[0] if c else '-'))")
+  [ "$own" = "-" ] && { echo "$id - kept although no check reports it (reasons in meta.json)"; continue; }
   out=$(./tools_seed_eval.sh $PWD/$d/patch.diff $own 2>&1)
   if echo "$out" | grep -q "patch does not apply"; then echo "$id $own NOAPPLY";
   elif echo "$out" | grep -q "^VIOLATION"; then echo "$id $own caught";
